@@ -117,6 +117,11 @@ def premise_iterator(ctx, prog, rule):
     r3_5_iterator(ctx, prog, rule=rule)
 
 
+def premise_encode_loop(ctx, prog, rule):
+    from .enc_loop_rules import r14_6_encode_loop
+    r14_6_encode_loop(ctx, prog, rule=rule)
+
+
 # machine-checked premises of reviewed budget entries: `requires` text in anchors/panic_budget.json -> checker
 PREMISES = {
     "is_removable_character accepts only code points < 0x80": premise_removable_ascii,
@@ -124,6 +129,7 @@ PREMISES = {
     "C01 R1.2": premise_distinct_codes,
     "reassembler invariant (C16 R16.4)": premise_reassembler,
     "attribute iterator invariant (C03 R3.5)": premise_iterator,
+    "encode loop invariant (C14 R14.6)": premise_encode_loop,
 }
 
 
